@@ -12,7 +12,17 @@
    completion order.  That the IMPLEMENTATION has no further, hidden input (hash order, global random state, object
    identity, time) is established by harness/props/c17.py: agreement of fingerprints and complete decision logs
    across repetitions, ambient random states, processes and PYTHONHASHSEED values, and the replay of the logged
-   traces through this model - differential testing, not proof. *)
+   traces through this model - differential testing, not proof.
+
+   WHICH CLAUSE IS DECIDED HOW.  Every theorem of this file is a statement about the MODEL (none carries the suffix
+   _partial because each is the full statement about the model it names; none is, by itself, the property's clause
+   about the implementation).  The property's clauses "two solves from freshly constructed solvers produce identical
+   results, in one process and across hash seeds" and "every random constructor is a function of its arguments and
+   seed only" are decided for the IMPLEMENTATION by the differential runs of harness/props/c17.py alone; the theorems
+   decide, for the model that the replays tie to the implementation: the seeding order (C17_seed_order and its two variants), that model
+   constructors and the composed run read nothing but a prefix of their logs (C17_constructor_functional, C17_constructor_equal_prefix, C17_run_functional),
+   independence of completion orders (C17_completion_independent, its operator-level form, C17_run_completion_independent), and consistency / ledger
+   shape / generation limit of the composed run (C17_run_consistent, C17_run_ledger_shape, C17_run_max_generations). *)
 From QV Require Import Repro.Seeding Repro.Seeding_proofs.
 From Coq Require Import Permutation.
 Open Scope Z_scope.
@@ -264,3 +274,55 @@ Example C17_run_example :
        /\ length (Loop.sr_history _ _ _ _ _ res) = 2%nat.
 Proof. split; [vm_compute; reflexivity|]. do 2 eexists. vm_compute. repeat split. Qed.
 Print Assumptions C17_run_example.
+
+(* ================================================================ shape of what the EVQE operators report, discharged *)
+(* builder-solver's theorems C05_ledger_shape_evqe / C12_max_generations_evqe / C12_evqe_shape_single_result carry the
+   hypothesis that every operator application reports nothing, one count, or one count followed by one result
+   (Ledger.evqe_shape).  Repro/Shape_proofs.v PROVES that hypothesis for builder-ops' operator models (run_op_shape) and
+   hence for the composed world (c_apply_shape); the theorems below are those `_evqe` theorems instantiated at the
+   composition WITHOUT any shape hypothesis.  The composition is configured without a termination criterion
+   (cfg_criterion = None), so there is no counterpart of C12_criterion_stops_evqe: no criterion is ever consulted. *)
+From QV Require Repro.Shape_proofs.
+
+Section ComposedRunShape.
+  Import QV.Repro.Compose.
+  Variable ev : zind -> result Q.
+  Variables Init Dist AuxEv AV : Type.
+  Variable measure : option Init -> zind -> Dist.
+  Variable aux_eval : AuxEv -> zind -> AV.
+  Notation evqe_run := (evqe_run ev Init Dist AuxEv AV measure aux_eval).
+  Notation l_tr := (Loop.l_tr zind cres (population Z) op cworld).
+
+  (* every operator application of the composed world has the EVQE shape - for every operator, log and population *)
+  Theorem C17_run_evqe_shape : forall o w pop,
+    Ledger.evqe_shape cres (fst (fst (c_apply ev o w pop))).
+  Proof. exact (QV.Repro.Shape_proofs.c_apply_shape ev). Qed.
+
+  (* hence: never two results within one application, every result preceded (since the previous one) by a count *)
+  Theorem C17_run_single_result_counted : forall c seed init aux lgs ifuel fuel out,
+    evqe_run c seed init aux lgs ifuel fuel = Ok out ->
+    Ledger.single_result zind cres (population Z) op (l_tr (o_ls Init Dist AV out))
+    /\ Ledger.counted cres (Ledger.events_of zind cres (population Z) op (l_tr (o_ls Init Dist AV out))).
+  Proof. exact (QV.Repro.Shape_proofs.evqe_run_single_result_counted ev Init Dist AuxEv AV measure aux_eval). Qed.
+
+  (* the ledger IS its specification: entry g = sum of the counts reported between results g-1 and g, plus one trailing
+     entry iff something was reported after the last result; generations <= |ledger| <= generations + 1 *)
+  Theorem C17_run_ledger_shape : forall c seed init aux lgs ifuel fuel out res,
+    evqe_run c seed init aux lgs ifuel fuel = Ok out -> o_result Init Dist AV out = Ok res ->
+    Loop.sr_circuit_evaluations _ _ _ _ _ res
+      = Ledger.ledger_spec cres (Ledger.events_of zind cres (population Z) op (l_tr (o_ls Init Dist AV out)))
+    /\ (Loop.sr_generations _ _ _ _ _ res <= length (Loop.sr_circuit_evaluations _ _ _ _ _ res)
+         <= Loop.sr_generations _ _ _ _ _ res + 1)%nat.
+  Proof. exact (QV.Repro.Shape_proofs.evqe_run_ledger_shape ev Init Dist AuxEv AV measure aux_eval). Qed.
+
+  (* max_generations = G: the composed run makes at most max(0, G) result callbacks (generations) *)
+  Theorem C17_run_max_generations : forall c seed init aux lgs ifuel fuel out G,
+    e_max_generations c = Some G ->
+    evqe_run c seed init aux lgs ifuel fuel = Ok out ->
+    (Z.of_nat (Ledger.n_results zind cres (population Z) op (l_tr (o_ls Init Dist AV out))) <= Z.max 0 G)%Z.
+  Proof. exact (QV.Repro.Shape_proofs.evqe_run_max_generations ev Init Dist AuxEv AV measure aux_eval). Qed.
+End ComposedRunShape.
+Print Assumptions C17_run_evqe_shape.
+Print Assumptions C17_run_single_result_counted.
+Print Assumptions C17_run_ledger_shape.
+Print Assumptions C17_run_max_generations.
